@@ -128,3 +128,13 @@ Theorem dk_leak_witness :
   dk_session true dk_hs_ds dk_idle_ds dk_io_ds DkTlsP [34] = [(true, true); (false, false)] /\
   dk_case DkTlsP [34] = [(true, true); (true, false)].
 Proof. vm_compute. split; reflexivity. Qed.
+
+(* ---- round 9: an unset idle time-out option never means "no limit" ---- *)
+Theorem ut_idle_defaulted s opt :
+  0 < ut_idle s opt /\ ut_idle s 0 = ut_default s /\ (s <> UtUdp -> 0 < opt -> ut_idle s opt = opt).
+Proof.
+  split; [|split].
+  - destruct s, opt; cbn; lia.
+  - destruct s; reflexivity.
+  - intros H O. destruct s; try congruence; destruct opt; cbn; try lia; reflexivity.
+Qed.
